@@ -975,11 +975,17 @@ def rule_pipeline_simulation(ctx, R: str, title: str = None):
       ('M5 concatenation static only', M5, [('.*', 'cat', 'srq')]),
       ('M6 add(x, x) then reshape (same-scale op), everything static', M6, [('.*', '*', 'srq')]),
       ('M6 reshape static only', M6, [('.*', 'rs', 'srq')]),
+      # stale statistics: calibrated for a narrower rule list than the one quantized with - the request must be
+      # rejected, or every selected operator must still end up in its mode (never silently left float)
+      ('M2 both FC static with statistics calibrated for the first FC only', M2, [('.*', 'fc', 'srq')], [('h;', 'fc', 'srq')]),
+      ('M1 FC and OUTPUT static with statistics calibrated for the FC only', M1, [('.*', 'fc', 'srq'), ('.*', 'OUTPUT', 'srq')], [('.*', 'fc', 'srq')]),
   ]
   F32, I8 = TT['FLOAT32'], TT['INT8']
   tval = lambda t: t.value if isinstance(t, Ext) else t
   rs.exhaustive = True
-  for cname, (tensors, ops, gin, gout), rules in cases:
+  for case in cases:
+    cname, (tensors, ops, gin, gout), rules = case[:3]
+    cal_rules = case[3] if len(case) > 3 else None
     names = [n for n, _ in tensors]
     wts = {n: NdArr((2, 2), [5 + i, -7, 2, 9 - i]) for i, (n, c) in enumerate(tensors) if c}
 
@@ -1038,11 +1044,18 @@ def rule_pipeline_simulation(ctx, R: str, title: str = None):
         continue
       store.setdefault(rx, []).append(c11._recipe(rx, opn, MM, CFG[mode]))  # pylint: disable=protected-access
     rm = Obj('recipe_manager:RecipeManager', {'_scope_configs': store})
+    rm_cal = rm
+    if cal_rules is not None:
+      store_c = {}
+      for rx, kind, mode in cal_rules:
+        opn = OP[KIND[kind]] if kind in KIND else OP[kind if kind != '*' else 'ALL_SUPPORTED']
+        store_c.setdefault(rx, []).append(c11._recipe(rx, opn, MM, CFG[mode]))  # pylint: disable=protected-access
+      rm_cal = Obj('recipe_manager:RecipeManager', {'_scope_configs': store_c})
     need = any(m == 'srq' for _, _, m in rules)
     stats = None
     if need:
       calo = Obj(CAL, {'_flatbuffer_model': model(), '_tfl_interpreter': interp, '_tensor_content_map': {}, '_model_qsvs': {}, '_cached_output': []})
-      o1 = it.outcomes(cal, [calo, [{'k': 1}, {'k': 2}], rm, None], copy_args=False)
+      o1 = it.outcomes(cal, [calo, [{'k': 1}, {'k': 2}], rm_cal, None], copy_args=False)
       if len(o1) != 1 or o1[0].kind != 'return':
         ctx.check(R, False, cal.node, cal, cname, f'calibrate: {[x.short()[:120] for x in o1]}')
         continue
@@ -1052,6 +1065,9 @@ def rule_pipeline_simulation(ctx, R: str, title: str = None):
     b2t = it.outcomes(ctx.repo.func('utils.tfl_flatbuffer_utils:buffer_to_tensors'), [m], copy_args=False)
     pg = Obj(PG, {'flatbuffer_model': model(), 'model_quant_results': {}, 'buffer_to_tensors': b2t[0].value if len(b2t) == 1 and b2t[0].kind == 'return' else {}})
     o2 = it.outcomes(gen, [pg, rm, stats], copy_args=False)
+    if cal_rules is not None and len(o2) == 1 and o2[0].kind == 'raise':
+      ctx.check(R, True, gen.node, gen, f'{cname}: rejected ({o2[0].exc})', '')
+      continue   # stale statistics are refused: fine
     if len(o2) != 1 or o2[0].kind != 'return':
       ctx.check(R, False, gen.node, gen, cname, f'plan generation: {[x.short()[:160] for x in o2]}')
       continue
@@ -1346,3 +1362,62 @@ def rule_subgraph_independence(ctx, R: str):
           pairs = [(a, b) for a, b in zip(want[k], got[k]) if a != b] if isinstance(want[k], list) and len(want[k]) == len(got[k]) else [(want[k], got[k])]
           detail = f'{k}: alone {pairs[0][0]!r}, in the model {pairs[0][1]!r}'
         ctx.check(R, not diff, tg.node, tg, f'{label}: subgraph {gname} at position {pos}', f'subgraph {gname} is quantized differently than when it stands alone - {detail}')
+
+
+# ------------------------------------------------------- error discipline
+SWALLOW_ALLOWED = {
+    # (function, exception type): why swallowing is the documented behaviour
+    ('recipe_manager:RecipeManager.get_quantization_configs', 'ValueError'): 'a rule whose config the op does not support is skipped (C11: not applicable)',
+    ('utils.tfl_interpreter_utils:get_constant_tensor_names', 'ValueError'): 'tensors the interpreter cannot return (no data) are not constants',
+}
+
+
+def rule_no_swallowed_errors(ctx, R: str):
+  """Every rejection in the pipeline is a raised error (missing statistics,
+  unsupported config, invalid instructions ...). A handler that catches one and
+  carries on turns "the request is refused" into "the request is silently
+  changed". In the call tree of the public API only the two documented skips may
+  swallow; every other handler must re-raise on all its paths."""
+  rs = ctx.rule(R, 'no exception is swallowed in the call tree of the public API (two documented skips excepted): a refusal is never turned into a silent downgrade', floor=2)
+  cg = callgraph.get(ctx)
+  q = ctx.repo.cls('quantizer:Quantizer')
+  roots = [m.fq for n, m in q.methods.items() if not n.startswith('_')]
+  seen_allowed = set()
+  for fq in sorted(cg.reachable(roots)):
+    f = ctx.repo.func(fq)
+    for n in common.walk_no_nested(f.node):
+      if not isinstance(n, ast.Try):
+        continue
+      for h in n.handlers:
+        ctx.instance(R)
+        ty = ast.unparse(h.type) if h.type is not None else 'BaseException'
+        g = cfgmod.build(ast.FunctionDef(name='h', args=ast.arguments(posonlyargs=[], args=[], kwonlyargs=[], kw_defaults=[], defaults=[]), body=h.body, decorator_list=[], lineno=h.lineno, col_offset=0))
+        # a handler re-raises iff its normal exit is unreachable without passing a raise
+        normal_exit = g.exit.id in g.reachable([g.entry.id], blocked={x.id for x in g.nodes if isinstance(getattr(x, 'ast', None), ast.Raise)})
+        leaves_loop = any(isinstance(x, (ast.Continue, ast.Break, ast.Return)) for st in h.body for x in ast.walk(st))
+        swallows = normal_exit or leaves_loop
+        key = (fq, ty.split('.')[-1])
+        if swallows and key in SWALLOW_ALLOWED:
+          seen_allowed.add(key)
+          ctx.check(R, True, h, f, f'{ty}: {SWALLOW_ALLOWED[key]}', '')
+          continue
+        tried = sorted({common.call_name(c) for st in n.body for c in common.calls_in(st)})[:4]
+        # only handlers around repository code that can refuse (an explicit raise somewhere below the guarded calls, or a registry / function-valued call)
+        guarded = False
+        for s in cg.sites.get(fq, []):
+          if any(s.node is c for st in n.body for c in common.calls_in(st)):
+            if not s.callees and isinstance(s.node.func, ast.Name) and (
+                s.node.func.id in defuse.own_assignments(f.node) or s.node.func.id in [p.lstrip('*') for p in f.params]):
+              guarded = True   # call through a local function value (e.g. a registered materialiser)
+            for callee in s.callees:
+              for sub_fq in cg.reachable([callee.fq]):
+                if any(isinstance(x, ast.Raise) for x in common.walk_no_nested(ctx.repo.func(sub_fq).node)):
+                  guarded = True
+                  break
+        if not guarded:
+          ctx.check(R, True, h, f, f'except {ty}: guards no repository code that raises', '')
+          continue
+        ctx.check(R, not swallows, h, f, f'except {ty} around {tried}',
+                  f'{f.name} catches {ty} raised by {tried} and carries on: what the pipeline refuses (missing statistics, unsupported config) is silently turned into another result')
+  if len(seen_allowed) < 2:
+    raise index.AnalysisError(f'{R}: the documented skip handlers were not found ({sorted(seen_allowed)})')
